@@ -18,19 +18,21 @@ Init == kern \in {"shipped", "user5"} /\ r \in 0..63 /\ k = 1
 Next == k < NScen(Dim(kern)[1]) /\ k' = k + 1 /\ UNCHANGED <<kern, r>>
 Spec == Init /\ [][Next]_vars
 
-S == Scenario(k, Dim(kern)[1], Dim(kern)[2], r)
+WTab == TLCEval([kn \in {"shipped", "user5"} |-> Weights(Dim(kn)[1])])
+S == Scenario(k, WTab[kern], Dim(kern)[2], r)
 WellFormed ==
-   LET rows == GridRows(S.grid, Dim(kern)[2])  pos == LimitPos(Len(rows))
-   IN /\ Len(S.w.cols) >= 1
-      /\ \A c \in 1..Len(S.w.cols) : S.w.cols[c][1] \in 1..Dim(kern)[1] /\ S.w.cols[c][2] >= 1
-      /\ \A c, d \in 1..Len(S.w.cols) : c < d => S.w.cols[c][1] < S.w.cols[d][1] \/ S.w.kind = "pair"
-      /\ (S.w.kind = "pair" => S.w.cols[1][1] # S.w.cols[2][1])
-      /\ DLt(DZero, S.w.scale)
+   LET sc == TLCEval(S)
+       cols == sc.w.cols
+       nc == Len(cols)
+       rows == TLCEval(GridRows(sc.grid, Dim(kern)[2]))  pos == LimitPos(Len(rows))
+   IN /\ nc >= 1
+      /\ \A c \in 1..nc : cols[c][1] \in 1..Dim(kern)[1] /\ cols[c][2] >= 1
+      /\ \A c \in 1..(nc - 1) : cols[c][1] # cols[c + 1][1] /\ (sc.w.kind # "pair" => cols[c][1] < cols[c + 1][1])
+      /\ DLt(DZero, sc.w.scale)
       /\ \A i \in 1..Len(rows) : rows[i] \in 1..Dim(kern)[2]
       /\ \A i \in 1..(Len(rows) - 1) : rows[i] < rows[i + 1]
       /\ pos.a >= 1 /\ pos.b < Len(rows) /\ pos.b - pos.a >= 3
-      /\ S.order \in 0..3 /\ S.limits \in {"none", "lower", "upper", "both"}
-Combos(kn, rot) == {<<Scenario(i, Dim(kn)[1], Dim(kn)[2], rot).grid, Scenario(i, Dim(kn)[1], Dim(kn)[2], rot).limits,
-                      Scenario(i, Dim(kn)[1], Dim(kn)[2], rot).order>> : i \in 1..NScen(Dim(kn)[1])}
+      /\ sc.order \in 0..3 /\ sc.limits \in {"none", "lower", "upper", "both"}
+Combos(kn, rot) == {LET sc == Scenario(i, WTab[kn], Dim(kn)[2], rot) IN <<sc.grid, sc.limits, sc.order>> : i \in 1..NScen(Dim(kn)[1])}
 Covers == (kern = "shipped" /\ k = 1) => Cardinality(Combos(kern, r)) = 64
 =============================================================================
